@@ -84,7 +84,7 @@ class Interp:
             raise Violation("inputs were modified by %s: changed %s; before %s after %s" % (
                 after, diff, {k: self.snap0[k] for k in diff}, {k: now[k] for k in diff}))
 
-    def _run(self, op, d, s, shared=False):
+    def _run(self, op, d, s, shared=False, reseed=0):
         with configs.solver_env(op["env"]):
             if shared:
                 # on the shared side the algorithm OBJECT is shared too: one instance per configuration for the whole
@@ -95,7 +95,9 @@ class Interp:
                 alg = self.instances[key]
             else:
                 alg = configs.BY_NAME[op["config"]].factory()
-            random.seed(op["rng"])
+            # configurations that do not declare any use of randomness get a DIFFERENT state of the `random` module for
+            # their second call (and for the run on fresh copies): their result must not depend on it
+            random.seed(op["rng"] + (0 if configs.BY_NAME[op["config"]].rng else reseed))
             try:
                 with lib.quiet():
                     return "ok", alg.compute_consensus_rankings(d, s, op["flag"])
@@ -111,7 +113,7 @@ class Interp:
             st1, c1 = self._run(op, self.d, self.s, shared=True)
             self.check_unchanged("running %s" % op["config"])
             fd, fs = self.fresh()
-            st2, c2 = self._run(op, fd, fs)
+            st2, c2 = self._run(op, fd, fs, reseed=7)
             if st1 != st2:
                 raise Violation("%s on shared objects: %s, on fresh copies: %s" % (op["config"], st1, st2))
             if st1 == "ok" and self.mutated:
@@ -121,7 +123,7 @@ class Interp:
                                     "dataset, %r on a fresh dataset with the same rankings" % (
                                         op["config"], c1.kemeny_score, c2.kemeny_score))
                 if not configs.BY_NAME[op["config"]].rng:
-                    st3, c3 = self._run(op, self.d, self.s, shared=True)
+                    st3, c3 = self._run(op, self.d, self.s, shared=True, reseed=13)
                     if st3 != "ok" or cons_view(c3) != v1:
                         raise Violation("%s called twice on the same inputs: %s then %s" % (
                             op["config"], v1, cons_view(c3) if c3 is not None else st3))
@@ -132,7 +134,7 @@ class Interp:
                     raise Violation("%s on shared objects after %d earlier step(s) returned %s, on fresh copies %s" % (
                         op["config"], self.steps - 1, v1, v2))
                 if not configs.BY_NAME[op["config"]].rng:
-                    st3, c3 = self._run(op, self.d, self.s, shared=True)
+                    st3, c3 = self._run(op, self.d, self.s, shared=True, reseed=13)
                     if st3 != "ok" or cons_view(c3) != v1:
                         raise Violation("%s called twice on the same inputs: %s then %s" % (
                             op["config"], v1, cons_view(c3) if c3 is not None else st3))
